@@ -702,6 +702,7 @@ func (fr *Frame) execBlock(b *ssa.BasicBlock, st *State, in map[*ssa.BasicBlock]
 			fr.rets = append(fr.rets, &retInfo{st: st, vals: vs})
 			return
 		case *ssa.Panic:
+			fr.atPanic(st, x.Pos())
 			if fr.top().spec == nil || !fr.top().spec.MayPanic {
 				fr.callCount["panic"]++
 				fc.addObligation(st, "nopanic", fr.oblName(fmt.Sprintf("nopanic.%d", fr.callCount["panic"])), tBool(false), x.Pos(), "explicit panic must be unreachable")
